@@ -38,30 +38,36 @@ Definition at_limit {A} (limit : Z) (res : list A) : bool := negb (Z.eqb limit 0
 Definition trip_eqb (a b : Z * Z * Z) : bool := pair_eqb (fst a) (fst b) && Z.eqb (snd a) (snd b).
 Definition tmem (x : Z * Z * Z) (l : list (Z * Z * Z)) : bool := existsb (trip_eqb x) l.
 
-(** ** outgoing: reverse scan.  [noadd] = the pinned tree: [added] is only maintained once the
-    continuation key has been passed (F03d); repaired: live first-seen keys before the
-    continuation key are remembered as added too. *)
-Fixpoint out_loop (noadd : bool) (fr : rfrom) (limit : Z) (ks : list rk)
+(** ** outgoing: reverse scan (newest first) with the seen / added bookkeeping.
+    [proj] = what identifies a result next to the start point: (predicate, target) for the
+    outgoing index; the repaired incoming scan below reuses the loop with (predicate, source).
+    [noadd] = the pinned tree: [added] is only maintained once the continuation key has been
+    passed (F03d); repaired: live first-seen keys before the continuation key are remembered
+    as added too. *)
+Definition ofact (k : rk) := (r_pred k, r_tgt k).
+Definition ifact (k : rk) := (r_pred k, r_src k).
+
+Fixpoint out_loop (proj : rk -> Z * Z) (noadd : bool) (fr : rfrom) (limit : Z) (ks : list rk)
          (seen : list (Z * Z * Z)) (added : list (Z * Z)) (reached : bool)
          (res : list rk) (cont : option rk) : list rk * option rk :=
   match ks with
   | [] => (res, None)                                    (* iterator exhausted: cont.RelationIndexFromKey = nil *)
   | k :: ks' =>
-    if negb (pass fr k) then out_loop noadd fr limit ks' seen added reached res cont else
-    let f := (r_pred k, r_tgt k) in
-    if tmem (f, r_ds k) seen || pmem f added then out_loop noadd fr limit ks' seen added reached res cont else
+    if negb (pass fr k) then out_loop proj noadd fr limit ks' seen added reached res cont else
+    let f := proj k in
+    if tmem (f, r_ds k) seen || pmem f added then out_loop proj noadd fr limit ks' seen added reached res cont else
     let seen' := (f, r_ds k) :: seen in
     if negb (r_del k) && reached then
       if at_limit limit res then (res, cont)             (* break *)
-      else out_loop noadd fr limit ks' seen' (f :: added) true (res ++ [k]) (Some k)
+      else out_loop proj noadd fr limit ks' seen' (f :: added) true (res ++ [k]) (Some k)
     else
       let added' := if negb noadd && negb (r_del k) then f :: added else added in
       let reached' := reached || match f_key fr with Some s => rk_eqb k s | None => false end in
-      out_loop noadd fr limit ks' seen' added' reached' res cont
+      out_loop proj noadd fr limit ks' seen' added' reached' res cont
   end.
 
 Definition related_out (noadd : bool) (keys : list rk) (fr : rfrom) (limit : Z) : list rk * option rk :=
-  out_loop noadd fr limit (out_view keys (f_start fr)) [] []
+  out_loop ofact noadd fr limit (out_view keys (f_start fr)) [] []
            (match f_key fr with None => true | Some _ => false end) [] None.
 
 (** ** incoming: forward scan.  Results Go takes from [range map] with [break] are a choice. *)
@@ -129,46 +135,15 @@ Fixpoint inv_loop (fr : rfrom) (limit : Z) (ks : list rk) (st : istate) : list r
     else inv_loop fr limit ks' (inv_step st k)
   end.
 
-(** the repaired incoming scan (our proposal): the same loop, but the per-source state is the
-    latest key per (predicate, dataset); a source contributes one result per predicate that is
-    live in at least one dataset *)
-Record fstate := { g_cur : Z; g_grp : list ((Z * Z) * rk); g_res : list res; g_cont : option rk }.
-Definition fstate0 : fstate := {| g_cur := 0; g_grp := []; g_res := []; g_cont := None |}.
+(** the repaired incoming scan (our proposal): scan the incoming prefix the way the outgoing one
+    is scanned - in reverse (newest first per source), first key per (predicate, source, dataset)
+    decides, a (predicate, source) is returned once, continuation = last returned key *)
+Definition in_view_desc (keys : list rk) (tgt : uri) : list rk :=
+  isort (fun a b => ikey_ltb b a) (filter (fun k => Z.eqb (r_tgt k) tgt) keys).
 
-Definition grp_put (p ds : Z) (k : rk) (g : list ((Z * Z) * rk)) : list ((Z * Z) * rk) :=
-  ((p, ds), k) :: filter (fun e => negb (pair_eqb (fst e) (p, ds))) g.
-
-Fixpoint first_per_pred (l : list rk) (seenp : list Z) : list rk :=
-  match l with
-  | [] => []
-  | k :: l' => if zmem (r_pred k) seenp then first_per_pred l' seenp
-               else k :: first_per_pred l' (r_pred k :: seenp)
-  end.
-Definition live_preds (g : list ((Z * Z) * rk)) : list rk :=
-  first_per_pred (filter (fun k => negb (r_del k)) (map snd g)) [].
-
-Definition fix_step (st : fstate) (k : rk) : fstate :=
-  let st1 :=
-    if negb (Z.eqb (r_src k) (g_cur st)) then
-      {| g_cur := g_cur st; g_grp := [];
-         g_res := if negb (Z.eqb (g_cur st) 0) then g_res st ++ map RDef (live_preds (g_grp st)) else g_res st;
-         g_cont := g_cont st |}
-    else st in
-  {| g_cur := r_src k; g_grp := grp_put (r_pred k) (r_ds k) k (g_grp st1); g_res := g_res st1; g_cont := Some k |}.
-
-Definition fix_finish (valid : bool) (limit : Z) (st : fstate) : list res * option rk :=
-  let opn := Z.eqb limit 0 || (len (g_res st) <? limit) in
-  let res' := if opn && negb (Z.eqb (g_cur st) 0) then g_res st ++ map RDef (live_preds (g_grp st)) else g_res st in
-  (res', if negb valid && (Z.eqb (len res') 0 || opn) then None else g_cont st).
-
-Fixpoint fix_loop (fr : rfrom) (limit : Z) (ks : list rk) (st : fstate) : list res * option rk :=
-  match ks with
-  | [] => fix_finish false limit st
-  | k :: ks' =>
-    if at_limit limit (g_res st) then fix_finish true limit st
-    else if negb (pass fr k) then fix_loop fr limit ks' st
-    else fix_loop fr limit ks' (fix_step st k)
-  end.
+Definition related_in_fixed (keys : list rk) (fr : rfrom) (limit : Z) : list rk * option rk :=
+  out_loop ifact false fr limit (in_view_desc keys (f_start fr)) [] []
+           (match f_key fr with None => true | Some _ => false end) [] None.
 
 (** Seek(startBuffer): the first key >= the continuation key (inclusive) *)
 Definition in_view_from (keys : list rk) (fr : rfrom) : list rk :=
@@ -177,7 +152,7 @@ Definition in_view_from (keys : list rk) (fr : rfrom) : list rk :=
 
 Definition related_in (inv1 : bool) (keys : list rk) (fr : rfrom) (limit : Z) : list res * option rk :=
   if inv1 then inv_loop fr limit (in_view_from keys fr) istate0
-  else fix_loop fr limit (in_view_from keys fr) fstate0.
+  else let '(rs, c) := related_in_fixed keys fr limit in (map RDef rs, c).
 
 (** ** variant flags of the query side *)
 Record qflags := {
